@@ -1,2 +1,131 @@
-/- driver stub for C09: replaced when the model exists -/
-def main : IO Unit := pure ()
+/- driver for C09: BACnet/IP virtual link layer (Model.Bvll)
+
+   ops  enc    {m, len}        AnnexJCodec.indication of a message object whose stored
+                               bvlciLength is `len` (null = what the constructor computed)
+                               → {hex, fn, len, body}
+        dec    {hex}           BVLPDU.decode            → {fn, len, data}
+        cdec   {hex}           AnnexJCodec.confirmation → {m, len} | err | {r:"unknown", fn}
+        bdec   {fn, hex}       <class>.decode on BVLPDU data → {m}
+        benc   {fn, len, hex}  BVLPDU.encode of raw (function, length, data) → {hex}
+        pack   {ip:[a,b,c,d], port}  pack_ip_addr   → {hex}
+        unpack {hex}                 unpack_ip_addr → {ip, port}
+   message  [code, params…]: [0,code] [1,[[addr,mask]…]] [2] [3,[[addr,mask]…]] [4,addr,data]
+            [5,ttl] [6] [7,[[addr,ttl,remain]…]] [8,addr] [9,data] [10,data] [11,data]
+-/
+import BacVerif.Drv.Common
+import BacVerif.Model.Bvll
+open Lean BacVerif BacVerif.Drv BacVerif.Bvll
+
+def hexOf (j : Json) : R Bytes := do
+  match ofHex? (← j.getStr?) with
+  | some b => pure b
+  | none => throw "bad hex"
+
+def jN (n : Nat) : Json := Json.num n
+
+def jBdt (es : List BdtEntry) : Json :=
+  Json.arr (es.map fun e => Json.arr #[jHex e.addr, jN e.mask]).toArray
+
+def jFdt (es : List FdtEntry) : Json :=
+  Json.arr (es.map fun e => Json.arr #[jHex e.addr, jN e.ttl, jN e.remain]).toArray
+
+def jMsg (m : Msg) : Json :=
+  let c : Json := jN m.fn.code
+  match m with
+  | .result code => Json.arr #[c, jN code]
+  | .writeBroadcastDistributionTable t => Json.arr #[c, jBdt t]
+  | .readBroadcastDistributionTable => Json.arr #[c]
+  | .readBroadcastDistributionTableAck t => Json.arr #[c, jBdt t]
+  | .forwardedNPDU a d => Json.arr #[c, jHex a, jHex d]
+  | .registerForeignDevice ttl => Json.arr #[c, jN ttl]
+  | .readForeignDeviceTable => Json.arr #[c]
+  | .readForeignDeviceTableAck t => Json.arr #[c, jFdt t]
+  | .deleteForeignDeviceTableEntry a => Json.arr #[c, jHex a]
+  | .distributeBroadcastToNetwork d => Json.arr #[c, jHex d]
+  | .originalUnicastNPDU d => Json.arr #[c, jHex d]
+  | .originalBroadcastNPDU d => Json.arr #[c, jHex d]
+
+def bdtOfJson (j : Json) : R (List BdtEntry) := do
+  (← j.getArr?).toList.mapM fun e => do
+    let a ← e.getArr?
+    if a.size ≠ 2 then throw "bdt entry: need 2 items"
+    pure { addr := ← hexOf a[0]!, mask := ← a[1]!.getNat? }
+
+def fdtOfJson (j : Json) : R (List FdtEntry) := do
+  (← j.getArr?).toList.mapM fun e => do
+    let a ← e.getArr?
+    if a.size ≠ 3 then throw "fdt entry: need 3 items"
+    pure { addr := ← hexOf a[0]!, ttl := ← a[1]!.getNat?, remain := ← a[2]!.getNat? }
+
+def msgOfJson (j : Json) : R Msg := do
+  let a ← j.getArr?
+  if a.size = 0 then throw "msg: empty"
+  let need (n : Nat) : R Unit := if a.size = n then pure () else throw "msg: wrong arity"
+  match fnOfCode (← a[0]!.getNat?) with
+  | none => throw "msg: unregistered function"
+  | some .result => do need 2; pure (.result (← a[1]!.getNat?))
+  | some .writeBroadcastDistributionTable => do
+      need 2; pure (.writeBroadcastDistributionTable (← bdtOfJson a[1]!))
+  | some .readBroadcastDistributionTable => do need 1; pure .readBroadcastDistributionTable
+  | some .readBroadcastDistributionTableAck => do
+      need 2; pure (.readBroadcastDistributionTableAck (← bdtOfJson a[1]!))
+  | some .forwardedNPDU => do need 3; pure (.forwardedNPDU (← hexOf a[1]!) (← hexOf a[2]!))
+  | some .registerForeignDevice => do need 2; pure (.registerForeignDevice (← a[1]!.getNat?))
+  | some .readForeignDeviceTable => do need 1; pure .readForeignDeviceTable
+  | some .readForeignDeviceTableAck => do need 2; pure (.readForeignDeviceTableAck (← fdtOfJson a[1]!))
+  | some .deleteForeignDeviceTableEntry => do need 2; pure (.deleteForeignDeviceTableEntry (← hexOf a[1]!))
+  | some .distributeBroadcastToNetwork => do need 2; pure (.distributeBroadcastToNetwork (← hexOf a[1]!))
+  | some .originalUnicastNPDU => do need 2; pure (.originalUnicastNPDU (← hexOf a[1]!))
+  | some .originalBroadcastNPDU => do need 2; pure (.originalBroadcastNPDU (← hexOf a[1]!))
+
+def handle (j : Json) : R Json := do
+  match ← fldStr j "op" with
+  | "enc" =>
+      let m ← msgOfJson (← fld j "m")
+      let o : Obj := match ← fldOptNat j "len" with
+        | none => construct m
+        | some n => { msg := m, storedLength := n }
+      let (len, body) := encodeBody o
+      match codecIndication o with
+      | .error e => pure (jErr e)
+      | .ok bs => pure (jOk [("hex", jHex bs), ("fn", jN m.fn.code), ("len", jN len), ("body", jHex body)])
+  | "dec" =>
+      let bs ← fldHex j "hex"
+      match decodeBvlpdu bs with
+      | .error e => pure (jErr e)
+      | .ok (fn, len, data) => pure (jOk [("fn", jN fn), ("len", jN len), ("data", jHex data)])
+  | "cdec" =>
+      let bs ← fldHex j "hex"
+      match codecConfirmation bs with
+      | .refused e => pure (jErr e)
+      | .unknownFunction fn => pure (Json.mkObj [("r", "unknown"), ("fn", jN fn)])
+      | .delivered o => pure (jOk [("m", jMsg o.msg), ("len", jN o.storedLength)])
+  | "bdec" =>
+      let bs ← fldHex j "hex"
+      match fnOfCode (← fldNat j "fn") with
+      | none => pure (Json.mkObj [("r", "unregistered")])
+      | some f =>
+          match decodeBody f bs with
+          | .error e => pure (jErr e)
+          | .ok m => pure (jOk [("m", jMsg m)])
+  | "benc" =>
+      let data ← fldHex j "hex"
+      match encodeBvlpdu (← fldNat j "fn") (← fldNat j "len") data with
+      | .error e => pure (jErr e)
+      | .ok bs => pure (jOk [("hex", jHex bs)])
+  | "pack" =>
+      let ip ← fldArr j "ip"
+      if ip.size ≠ 4 then throw "ip: need 4 items"
+      let x : IpPort := { a := ← ip[0]!.getNat?, b := ← ip[1]!.getNat?, c := ← ip[2]!.getNat?,
+                          d := ← ip[3]!.getNat?, port := ← fldNat j "port" }
+      match packIpAddr x with
+      | .error e => pure (jErr e)
+      | .ok bs => pure (jOk [("hex", jHex bs)])
+  | "unpack" =>
+      let bs ← fldHex j "hex"
+      match unpackIpAddr bs with
+      | .error e => pure (jErr e)
+      | .ok x => pure (jOk [("ip", Json.arr #[jN x.a, jN x.b, jN x.c, jN x.d]), ("port", jN x.port)])
+  | op => throw s!"unknown op {op}"
+
+def main : IO Unit := loop handle
